@@ -273,9 +273,7 @@ func c17Normalize(s *xl.Style, dec func(string) int) (xl.Style, bool) {
 		}
 	case s.Fill.Type == "gradient" && len(s.Fill.Color) == 2 && s.Fill.Shading >= 0 && s.Fill.Shading <= 16:
 		e.Fill = xl.Fill{Type: "gradient", Shading: s.Fill.Shading, Color: []string{c17NormColor(s.Fill.Color[0], "000000", &exact), c17NormColor(s.Fill.Color[1], "000000", &exact)}}
-	case s.Fill.Type == "pattern" || s.Fill.Type == "gradient":
-		e.Fill = xl.Fill{} // invalid fill: dropped
-	default:
+	default: // no fill, unknown type, out-of-range pattern, malformed gradient: no fill is created
 		e.Fill = xl.Fill{Type: "pattern"}
 	}
 	// borders: last entry of a kind wins, the diagonal line is shared, fixed read order
@@ -735,7 +733,9 @@ func (h *c17H) doNorm(line string, w []string) {
 	if req.Font != nil {
 		f = strings.TrimPrefix(strings.Fields(c17EncStyle(&xl.Style{Font: exp.Font}))[0], "F=")
 	}
-	if req.Fill.Type == "pattern" || req.Fill.Type == "gradient" {
+	validFill := (req.Fill.Type == "pattern" && req.Fill.Pattern >= 0 && req.Fill.Pattern <= 18) ||
+		(req.Fill.Type == "gradient" && len(req.Fill.Color) == 2 && req.Fill.Shading >= 0 && req.Fill.Shading <= 16)
+	if validFill {
 		l = strings.TrimPrefix(strings.Fields(c17EncStyle(&xl.Style{Fill: exp.Fill}))[1], "L=")
 	}
 	h.op(line, "F="+f+" L="+l)
